@@ -41,7 +41,8 @@ pub fn small_params(s: &Spec) -> Vec<Params> {
 
 /// boundary parameter sets (valid ones survive the constructor)
 pub fn edge_params(s: &Spec) -> Vec<Params> {
-	let m = PeriodType::MAX;
+	// the boundary of the DEFAULT period type, whatever the build (programs must be comparable across builds)
+	let m: PeriodType = 255;
 	let e: Vec<PeriodType> = vec![1, 2, 127, 128, m - 2, m - 1];
 	match s.par {
 		ParKind::N => e.iter().map(|n| Params::N(*n)).collect(),
